@@ -385,6 +385,37 @@ CHECKS["C09"] = dict(
     design_ref="§13",
 )
 
+CHECKS["C28"] = dict(
+    category="proof",
+    text=("Coq theorems C28_simplify_leaves / C28_simplify_nesting / C28_simplify_lossless prove for every tuple form (with or without position "
+          "dicts) that structural_simplify's record lists the same (type, text) entries in the same order under the same node-type paths and "
+          "determines the tuple (dict for unique child keys, list of single-key dicts for repeated ones, None for empty); C28_to_tuple_concat / "
+          "_tokens / _nesting / _tokens_code_only and the C28_as_record_* corollaries prove for every segment tree that the JSON/YAML/API record "
+          "lists every raw segment once, in file order, under its ancestor types and that the texts concatenate to the tree's raw. For the human "
+          "format C28_human_file_order_refuted exhibits a comment_separate (unparsable) node whose comments are printed first (open finding F28); "
+          "C28_human_every_token_once_partial / C28_human_tokens_partial state what holds. Tied by correspondence (exhaustive small tuples and trees of "
+          "the real segment classes, random and malformed streams, real parse trees; all 16 to_tuple flag combinations) and monitored end to end: "
+          "`sqlfluff parse` in human/json/yaml with/without -m/-c and sqlfluff.parse on fixtures + mutations + Jinja templates of all 28 dialects, "
+          "flattened by independent duplicate-key-detecting readers and compared with the tree, the lexer tokens, the rendered SQL and source positions."),
+    note=("Trusted: Coq kernel/vm_compute, hand model Model/Record.v (get_type() abstracted; metas have raw ''), the adapter real segment -> model term, "
+          "generated/Gen_c28_codec.v (input round-trip checked per case; outputs compared by length + 63-bit hash, exact streams on mismatch), "
+          "json/PyYAML loaders. No axioms."),
+    technique="Coq proof over hand model + exhaustive/random model-implementation correspondence + end-to-end CLI/API monitor with independent readers",
+    design_ref="§32",
+)
+CHECKS["C16"] = dict(
+    category="proof",
+    text=("PARTIAL. Coq theorems C16_st01_else_null, C16_st02_case_to_coalesce, C16_st04_flatten_nested_case, C16_cv02_ifnull_to_coalesce prove for "
+          "every row and every expression that the tree rewrites of ST01, ST02, ST04 and CV02 preserve the expression's value under a "
+          "three-valued SQLite-style semantics; the semantics is validated against SQLite on generated expressions x rows, and the rewrite "
+          "models against the output of the real single rules. All other rules are covered by search only: generated executable SELECT / CTE / "
+          "UNION / subquery / JOIN / GROUP BY queries over a fixed schema with random contents are fixed with every rule except ST06 and CV05 "
+          "(sqlite dialect) and executed in SQLite before and after; the multiset (sequence under ORDER BY) of rows must be equal."),
+    note=("Trusted: Coq kernel, hand model Model/SqlSem.v (validated against SQLite), the expression printer, SQLite as arbiter. The universal "
+          "statement over all rules and queries is explored, not proved. No axioms."),
+    technique="Coq proof of the semantic rewrites + model-vs-SQLite correspondence + before/after execution search", design_ref="§20",
+)
+
 NOT_YET = "no check built yet in this round (planned: see DESIGN.md section for this property)"
 
 
